@@ -206,6 +206,10 @@ pub struct SimRing {
     pub enabled: bool,
     pub closed: bool,
     pub sqpoll_idle: bool,
+    /// The kernel thread is prompt: it consumes whatever is published
+    /// whenever the application enters the kernel (unless it is idle and not
+    /// woken). Otherwise only the driver's explicit kernel-thread steps consume.
+    pub sqpoll_auto: bool,
     pub posted: Vec<PostedCqe>,
     pub next_seq: u64,
     /// Requests cancelled by SYNC_CANCEL.
@@ -605,6 +609,7 @@ impl Sim {
             enabled: flags & abi::SETUP_R_DISABLED == 0,
             closed: false,
             sqpoll_idle: false,
+            sqpoll_auto: false,
             posted: Vec::new(),
             next_seq: 1,
             sync_cancels: 0,
